@@ -120,10 +120,11 @@ type cacheVal struct {
 }
 
 type Explorer struct {
-	blocks  map[*ssa.BasicBlock]bool // basic blocks executed by this worker (coverage report)
-	solver  *Solver
-	solver2 *Solver // started lazily: consulted when the primary answers unknown
-	budgets Budgets
+	lastIntr string                   // last intrinsic entered (diagnostics)
+	blocks   map[*ssa.BasicBlock]bool // basic blocks executed by this worker (coverage report)
+	solver   *Solver
+	solver2  *Solver // started lazily: consulted when the primary answers unknown
+	budgets  Budgets
 
 	// per run
 	prefix      []int
@@ -649,7 +650,7 @@ func (e *Explorer) ConcretiseBV(t *Term, cap int, what string) uint64 {
 	if !complete {
 		// more feasible values than the cap: the first ones are explored (a
 		// violation found this way is real), but the path set is incomplete
-		e.notes = append(e.notes, fmt.Sprintf("partial concretisation of %s: only %d of more feasible values explored", what, len(vals)))
+		e.notes = append(e.notes, fmt.Sprintf("partial concretisation of %s: only %d of more feasible values explored (in %s)", what, len(vals), e.lastIntr)+dbgStack())
 	}
 	conds := make([]*Term, len(vals))
 	for i, v := range vals {
